@@ -21,12 +21,12 @@ import (
 )
 
 type c15Client struct {
-	kind      string
-	idx       int
-	marker    string
-	extras    []string
-	cstate    *structpb.Struct // client state sent when dialing
-	recState  *structpb.Struct // state the operator/token attaches to the node record
+	kind     string
+	idx      int
+	marker   string
+	extras   []string
+	cstate   *structpb.Struct // client state sent when dialing
+	recState *structpb.Struct // state the operator/token attaches to the node record
 }
 
 type c15Plan struct {
